@@ -3,9 +3,7 @@
 set -e
 f=$1; sedx=$2; shift 2
 cd /tmp/mut && git checkout -q -- . && git clean -fdq && git checkout -q --detach $(git -C /repo rev-parse HEAD)
-for d in lib/uu internal/iobroker internal/hsrv lib/opshell lib/shellfuncsfile lib/simpleshell lib/sstls .; do
-  [ -f /repo/$d/zz_contracts_verif.go ] && cp /repo/$d/zz_contracts_verif.go /tmp/mut/$d/ || true
-done
+(cd /repo && find . -name zz_contracts_verif.go) | while read c; do cp /repo/$c /tmp/mut/$c; done
 sed -i "$sedx" $f
 git diff --stat -- $f | tail -1
 (go build ./... 2>&1 | head -3)
